@@ -91,7 +91,9 @@ Definition hint_of (c : call) (o : oreply) : hint :=
   | OWritten 0 ocnt _ _ => match c with
                            | CWrite _ _ cnt _ _ => if ocnt <? cnt then HShort ocnt else HNone
                            | _ => HNone end
-  | _ => if (code_of o =? 28) || (code_of o =? 69) then HNoSpace else HNone   (* NFS3ERR_NOSPC / DQUOT *)
+  (* NFS3ERR_NOSPC / DQUOT, and SERVERFAULT (the journal refused the commit): resource failures, believed
+     only when nospace_plausible agrees *)
+  | _ => if (code_of o =? 28) || (code_of o =? 69) || (code_of o =? 10006) then HNoSpace else HNone
   end.
 
 (* ---------- R-abs: abstraction of the implementation's disk vs. the AM state ---------- *)
@@ -135,8 +137,10 @@ Definition need_blocks (c : call) : N :=
   end.
 Definition needs_inode (c : call) : bool :=
   match c with CCreate _ _ _ | CMkdir _ _ | CSymlink _ _ _ => true | _ => false end.
-Definition nospace_plausible (c : call) (free_blocks free_inodes : N) : bool :=
-  (free_blocks <? need_blocks c) || (needs_inode c && (free_inodes =? 0)).
+Definition nospace_plausible (wtmax : N) (c : call) (free_blocks free_inodes : N) : bool :=
+  (free_blocks <? need_blocks c) || (needs_inode c && (free_inodes =? 0)) ||
+  (* a link target beyond the largest WRITE need not fit one journal transaction *)
+  (match c with CSymlink _ _ t => wtmax <? lenN t | _ => false end).
 
 (* ---------- R-cache: what the server holds in memory agrees with its logical disk ---------- *)
 (* a cached inode = the 128 bytes of its disk inode *)
